@@ -1,0 +1,203 @@
+// Copyright 2026 Dolthub, Inc.
+//
+// Licensed under the Apache License, Version 2.0 (the "License");
+// you may not use this file except in compliance with the License.
+// You may obtain a copy of the License at
+//
+//     http://www.apache.org/licenses/LICENSE-2.0
+//
+// Unless required by applicable law or agreed to in writing, software
+// distributed under the License is distributed on an "AS IS" BASIS,
+// WITHOUT WARRANTIES OR CONDITIONS OF ANY KIND, either express or implied.
+// See the License for the specific language governing permissions and
+// limitations under the License.
+
+//go:build verif
+
+// Package verifhook provides named instrumentation points for external runtime
+// verification harnesses. With the "verif" build tag, actions (yield, sleep,
+// injected error, panic, SIGKILL of the own process, callback) can be attached
+// to a point in-process with Set, or for child processes through the
+// environment variable VERIF_HOOKS:
+//
+//	VERIF_HOOKS="point=action[@n][;point=action...]"
+//	action: yield | sleep(<ms>) | err | panic | kill | count
+//	@n    : act only on the n-th hit of the point (1-based); default every hit
+//
+// Emit appends observations as lines to the file named by VERIF_HOOK_LOG and
+// forwards them to a callback installed with OnEmit.
+package verifhook
+
+import (
+	"errors"
+	"fmt"
+	"os"
+	"runtime"
+	"strconv"
+	"strings"
+	"sync"
+	"sync/atomic"
+	"syscall"
+	"time"
+)
+
+// Enabled reports whether hooks are compiled in.
+const Enabled = true
+
+// ErrInjected is returned by AtErr when the point's action is "err".
+var ErrInjected = errors.New("verifhook: injected error")
+
+// Action is what happens when a point is hit.
+type Action struct {
+	Kind  string // yield | sleep | err | panic | kill | count | func
+	Sleep time.Duration
+	Nth   int64 // 0 = every hit
+	Fn    func(point string, hit int64) error
+}
+
+type entry struct {
+	act  Action
+	hits atomic.Int64
+}
+
+var (
+	mu      sync.RWMutex
+	points  = map[string]*entry{}
+	emitMu  sync.Mutex
+	emitCb  func(point string, kv []any)
+	emitLog *os.File
+	active  atomic.Bool
+)
+
+func init() {
+	if v := os.Getenv("VERIF_HOOKS"); v != "" {
+		for _, part := range strings.Split(v, ";") {
+			part = strings.TrimSpace(part)
+			if part == "" {
+				continue
+			}
+			kv := strings.SplitN(part, "=", 2)
+			if len(kv) != 2 {
+				continue
+			}
+			Set(kv[0], parseAction(kv[1]))
+		}
+	}
+	if p := os.Getenv("VERIF_HOOK_LOG"); p != "" {
+		f, err := os.OpenFile(p, os.O_APPEND|os.O_CREATE|os.O_WRONLY, 0o644)
+		if err == nil {
+			emitLog = f
+			active.Store(true)
+		}
+	}
+}
+
+func parseAction(s string) Action {
+	var a Action
+	if i := strings.LastIndex(s, "@"); i >= 0 {
+		a.Nth, _ = strconv.ParseInt(s[i+1:], 10, 64)
+		s = s[:i]
+	}
+	switch {
+	case strings.HasPrefix(s, "sleep(") && strings.HasSuffix(s, ")"):
+		ms, _ := strconv.ParseFloat(s[6:len(s)-1], 64)
+		a.Kind, a.Sleep = "sleep", time.Duration(ms*float64(time.Millisecond))
+	default:
+		a.Kind = s
+	}
+	return a
+}
+
+// Set attaches an action to a point, replacing any previous one.
+func Set(point string, a Action) {
+	mu.Lock()
+	points[point] = &entry{act: a}
+	mu.Unlock()
+	active.Store(true)
+}
+
+// Clear removes the action of one point, or of all points when point is "".
+func Clear(point string) {
+	mu.Lock()
+	if point == "" {
+		points = map[string]*entry{}
+	} else {
+		delete(points, point)
+	}
+	mu.Unlock()
+}
+
+// Hits returns how often a point with an attached action was reached.
+func Hits(point string) int64 {
+	mu.RLock()
+	e := points[point]
+	mu.RUnlock()
+	if e == nil {
+		return 0
+	}
+	return e.hits.Load()
+}
+
+// OnEmit installs the in-process observer for Emit.
+func OnEmit(cb func(point string, kv []any)) {
+	emitMu.Lock()
+	emitCb = cb
+	emitMu.Unlock()
+	active.Store(true)
+}
+
+func hit(point string) error {
+	if !active.Load() {
+		return nil
+	}
+	mu.RLock()
+	e := points[point]
+	mu.RUnlock()
+	if e == nil {
+		return nil
+	}
+	n := e.hits.Add(1)
+	if e.act.Nth != 0 && e.act.Nth != n {
+		return nil
+	}
+	switch e.act.Kind {
+	case "yield":
+		runtime.Gosched()
+	case "sleep":
+		time.Sleep(e.act.Sleep)
+	case "err":
+		return ErrInjected
+	case "panic":
+		panic("verifhook: injected panic at " + point)
+	case "kill":
+		syscall.Kill(os.Getpid(), syscall.SIGKILL)
+		select {}
+	case "func":
+		if e.act.Fn != nil {
+			return e.act.Fn(point, n)
+		}
+	}
+	return nil
+}
+
+// At marks a named point.
+func At(point string) { _ = hit(point) }
+
+// AtErr marks a named point at which an error can be injected.
+func AtErr(point string) error { return hit(point) }
+
+// Emit reports an observation.
+func Emit(point string, kv ...any) {
+	if !active.Load() {
+		return
+	}
+	emitMu.Lock()
+	cb, lf := emitCb, emitLog
+	if lf != nil {
+		fmt.Fprintf(lf, "%d %s %s\n", time.Now().UnixNano(), point, fmt.Sprint(kv...))
+	}
+	emitMu.Unlock()
+	if cb != nil {
+		cb(point, kv)
+	}
+}
